@@ -1,15 +1,15 @@
-import Fs.Proofs.Types
+import Fs.Proofs.Descr
 /-!
 # C06 — cursor.description matches the result of every executed statement
 
-Statements only (helper lemmas: `Fs/Proofs/Types.lean`).  `Fs.Types` models `fakesnow/types.py`
+Statements only (helper lemmas: `Fs/Proofs/Descr.lean`).  `Fs.Descr` models `fakesnow/types.py`
 (`duckdb_to_sf_type`, `describe_as_rowtype`, the `DECIMAL(p,s)` regex), what `description` re-describes per
 statement kind (`describeLast`, cursor.py:113-123,353) and the cursor/connection fields `description` and
 `describe()` touch.  DuckDB's DESCRIBE typing and pyarrow's Python types (`pyOf`) are modelled engine
 behaviour, tied by the correspondence check.
 -/
 namespace Fs.C06
-open Fs.Types
+open Fs.Descr
 
 /-- **DECIMAL(p,s) round trip**: for every precision and scale, the regex of `describe_as_rowtype` reads back
     exactly the numbers DuckDB's DESCRIBE printed, and the column comes out as FIXED with that precision/scale. -/
